@@ -58,7 +58,7 @@ def strategy(tier):
 
 
 def budget(tier):
-    return 2500 if tier == "quick" else 100000
+    return 2500 if tier == "quick" else 25000
 
 
 def _kinds(case):
